@@ -361,6 +361,15 @@ def r02_8(ctx):
                  ([240.0, d, 247], 'a float equal to the sysex start byte'), ([240, d, 247.0], 'a float equal to the sysex end byte'),
                  ([242.0, d, d], 'a float equal to the song position status'), (['a'], 'a string as status byte'), ([None], 'None as status byte'),
                  ([143.5, d, d], 'a non-integral float as status byte'), ([240, d, 'x'], 'a string as sysex end byte')]
+    # a first item that is an integer but no byte: a negative number, or one beyond 255, never stands for the status byte it
+    # happens to be congruent to
+    for shape, label in (([-112, d, d], '-112 (= 0x90 - 256) as first item'), ([-1], '-1 as first item'), ([-64, d], '-64 as first item'),
+                         ([0x190, d, d], '0x190 as first item'), ([-8], '-8 (= 0xf8 - 256) as first item')):
+        n += 1
+        outs = _outcomes(ctx, ai, fb, cls, shape)
+        ok = bool(outs) and all(o.kind == 'raise' and o.exc == 'ValueError' for o in outs)
+        ctx.require(ok, 'R02.8', f'from_bytes({label})', w, f'{shape!r} gives {outs}; a first item outside 0..255 is no status byte: ValueError',
+                    construct=f'{dec.qname}::first-item-range')
     for shape, label in bad_items:
         n += 1
         outs = _outcomes(ctx, ai, fb, cls, shape)
